@@ -122,10 +122,12 @@ theorem pinv_processLine (cfg : Cfg) {p q : Parser} {raw : Bytes} {m : Bool} {r 
     · split at h
       · split at h
         · simp at h
-        · simp only [Except.ok.injEq, Prod.mk.injEq] at h
-          rw [← h.1]
-          apply pinv_of_headers_eq hi
-          simp only [setLineAttributes_headers]
+        · split at h
+          · simp at h
+          · simp only [Except.ok.injEq, Prod.mk.injEq] at h
+            rw [← h.1]
+            apply pinv_of_headers_eq hi
+            simp only [setLineAttributes_headers]
       · simp at h
     · split at h
       · simp only [Except.ok.injEq, Prod.mk.injEq] at h; rw [← h.1]; exact pinv_of_headers_eq hi rfl
